@@ -104,3 +104,23 @@ Proof. vm_compute. repeat split; reflexivity. Qed.
 
 Example mm_nonvacuous_laws : ord_laws kv_cmp /\ kv_cmp (KB [1;2]) (KB [1;2;0]) = Lt /\ kv_cmp (KU 256) (KU 255) = Gt.
 Proof. split; [exact kv_cmp_laws | vm_compute; split; reflexivity]. Qed.
+
+(* ------------------------------------------------------------------------------------------------
+   Tie to the code (Gen/Fns.v is regenerated from btree_base.rs / multimap_table.rs on every run by
+   tools/gen_fns.py): the size of an inline value set and the inline-vs-subtree decisions of the model are
+   equal to what is translated from the Rust sources. *)
+From RV Require Import Gen.FnsLib Gen.Fns Gen.FnsBtreeP.
+
+Theorem c09_code_inline_required_bytes_is_model : forall (c : Multimap.Model.cfg) n bytes,
+  Multimap.Model.required_bytes c n bytes =
+  RawLeafBuilder_required_bytes n bytes (Multimap.Model.vwidth c) (Some 0%N).
+Proof. exact mm_required_is_model. Qed.
+
+Theorem c09_code_insert_stays_inline_is_model : forall (c : Multimap.Model.cfg) req new_pairs,
+  multimap_insert_stays_inline req new_pairs (Multimap.Model.page_size c) =
+  ((req <? Multimap.Model.half_page c)%N && (new_pairs <=? Multimap.Model.U16_MAX)%N)%bool.
+Proof. exact mm_stays_inline_is_model. Qed.
+
+Theorem c09_code_insert_new_key_inline_is_model : forall (c : Multimap.Model.cfg) req,
+  multimap_insert_new_key_inline req (Multimap.Model.page_size c) = (req <? Multimap.Model.half_page c)%N.
+Proof. exact mm_new_key_inline_is_model. Qed.
